@@ -62,7 +62,7 @@ func (r *Run) checkBoundFn(P, where string, g *ssa.Function, fromIdx, untilIdx i
 			r.R.Unk(id, rule, core.FuncName(g), r.where(g), why, "cannot evaluate: "+why2)
 			return
 		}
-		res := stripConv(ret.Results[0])
+		res := stripConv(core.RetOp(ret, 0))
 		wantDefault := env.rank["from"] != env.rank["0"] && env.rank["until"] == env.rank["0"]
 		kind := "other"
 		if res == until {
@@ -342,7 +342,7 @@ func (r *Run) checkWindowTest(P string, w *ssa.Function, iFrom, iUntil, iAnchor 
 			r.R.Unk(id, rule, core.FuncName(w), r.where(w), why, "cannot evaluate: "+why2)
 			return
 		}
-		accept := isNilConstV(ret.Results[ei])
+		accept := isNilConstV(core.RetOp(ret, ei))
 		z := env.rank["0"]
 		want := (env.rank["from"] == z && env.rank["until"] == z) ||
 			(!(env.rank["from"] > env.rank["anchor"]) && !(env.rank["bound"] < env.rank["anchor"]))
